@@ -20,6 +20,9 @@ func progVersion(r *core.Rand, fam int, flex bool) string {
 	if fam == 5 {
 		return gen.Versions5[r.Intn(len(gen.Versions5))]
 	}
+	if r.Chance(1, 10) {
+		return "" // the omitted version means 7.4 (it has every PHP 7 syntax incl. the flexible heredoc)
+	}
 	if flex {
 		return r.Pick("7.3", "7.4")
 	}
